@@ -224,7 +224,7 @@ def r2_matchers(a, tier):
         'ignorecase) and, under nameguard, it is not a name followed by a name character (the character AFTER the token); a match '
         'returns the token and advances by its length, a rejection leaves the position unchanged; all three agree. matchre takes '
         'no case flag',
-        floor=3000,
+        floor=6000,
     )
     impls = ['tatsu.input.textlines.TextLinesCursor', 'tatsu.input.buffer.BufferCursor', 'tatsu.input.buffer.Buffer']
     # the name tests are functions of the token and of THIS input's configuration: match / is_name / is_name_char keep no
@@ -256,7 +256,7 @@ def r2_matchers(a, tier):
     alpha = 'aA+'
     texts = [''.join(t) for k in range(0, 4) for t in itertools.product(alpha, repeat=k)]
     tokens = [''.join(t) for k in (1, 2) for t in itertools.product(alpha, repeat=k)]
-    ncsets = [frozenset(), frozenset('+')] if tier == 'thorough' else [frozenset('+')]
+    ncsets = [frozenset(), frozenset('+')]
     n_bad = 0
     for c in impls:
         fn = a.p.func(f'{c}.match')
@@ -541,4 +541,84 @@ def r2c_input_configuration(a, tier):
     return rep
 
 
-RULES = [r1_placement, r2_next_token_fixpoint, r2_matchers, r2c_input_configuration, r3_layering]
+def r2d_cursor_primitives(a, tier):
+    from ..modelinterp import Bound, Hook, ModelInterp, Recorder, Stub
+    rep = RuleReport(
+        'C09.R2d',
+        'cursor primitives of the three input implementations, interpreted on a stand-in input: a pattern is matched ANCHORED at the current '
+        'position (the regex method called is match(text, pos), never search) and matching it skips nothing first; matchre advances by the '
+        'length of the whole match and returns the group text; goto clamps into [0, len]; atend is true exactly at len; next returns the '
+        'current character and advances by one, None at the end',
+        floor=15,
+    )
+    impls = ['tatsu.input.textlines.TextLinesCursor', 'tatsu.input.buffer.BufferCursor', 'tatsu.input.buffer.Buffer']
+    TEXT = 'ab cd'
+
+    def mk(c, pos):
+        if c.endswith('.Buffer'):
+            return Stub(c, pos=pos, text=TEXT, textstr=TEXT, len=len(TEXT))
+        inp = Stub('tatsu.input.textlines.TextLines' if 'textlines' in c else 'tatsu.input.buffer.Buffer', textstr=TEXT, text=TEXT, len=len(TEXT))
+        return Stub(c, pos=pos, input=inp, buffer=inp, textstr=TEXT, text=TEXT, len=len(TEXT))
+
+    def run(me, mname, *args, g=None):
+        fn = a.ct.lookup(me._cls, mname)
+        it = ModelInterp(a, {'len': Hook(len), **(g or {})})
+        try:
+            return it.call_bound(Bound(me, fn), list(args), {})
+        except Unsupported as e:
+            raise AnalysisError(f'C09.R2d: cannot interpret {me._cls.split(".")[-1]}.{mname}: {e}') from e
+
+    for c in impls:
+        short = c.split('.')[-1]
+        # _scanre: anchored
+        rx = Recorder('regex')
+        me = mk(c, 2)
+        run(me, '_scanre', 'PATTERN', g={'cached_re_compile': Hook(lambda p_: rx)})
+        calls = [(t[0], t[1]) for t in rx.trace]
+        ok = calls == [('match', (TEXT, 2))]
+        rep.add({'impl': short, '_scanre': [f'{n}{args!r}' for n, args in calls], 'anchored_at_the_position': ok})
+        if not ok:
+            fn = a.ct.lookup(c, '_scanre')
+            rep.fail(fn.qualname, f'scan:{short}', f'{short}._scanre asks the regex with {calls}; required match(text, pos): a pattern must match AT the position '
+                     f'(search finds it anywhere ahead and the text in between is silently skipped)', fn.loc)
+        # matchre: whole-match length, group text, nothing skipped first
+        skipped: list = []
+        m = Hook(None, group=Hook(lambda *g_: 'ab '), groups=Hook(lambda: ('ab',)), end=Hook(lambda: 3), start=Hook(lambda: 0))
+        me = mk(c, 0)
+        for nm in ('next_token', 'eat_whitespace', 'eat_comments', 'eat_eol_comments'):
+            me._attrs[nm] = Hook(lambda *x, nm=nm: skipped.append(nm))
+        me._attrs['_scanre'] = Hook(lambda p_: m)
+        got = run(me, 'matchre', 'PATTERN', g={'str_from_match': Hook(lambda mm: 'ab')})
+        ok = got == 'ab' and me._attrs['pos'] == 3 and not skipped
+        rep.add({'impl': short, 'matchre': 'whole match "ab ", group "ab"', 'returns': got, 'position_after': me._attrs['pos'], 'skipped_first': skipped, 'ok': ok})
+        if not ok:
+            fn = a.ct.lookup(c, 'matchre')
+            rep.fail(fn.qualname, f'matchre:{short}', f'{short}.matchre with a match of "ab " whose group is "ab" returns {got!r}, leaves the position at {me._attrs["pos"]} '
+                     f'(skipping calls before: {skipped}); required: "ab", position 3, nothing skipped (whitespace is never skipped before a pattern)', fn.loc)
+        # goto / atend / next
+        for target, want in ((-4, 0), (2, 2), (len(TEXT), len(TEXT)), (len(TEXT) + 7, len(TEXT))):
+            me = mk(c, 1)
+            run(me, 'goto', target)
+            ok = me._attrs['pos'] == want
+            rep.add({'impl': short, 'goto': target, 'position': me._attrs['pos'], 'want': want})
+            if not ok:
+                fn = a.ct.lookup(c, 'goto')
+                rep.fail(fn.qualname, f'goto:{short}:{target}', f'{short}.goto({target}) on a text of length {len(TEXT)} leaves the position at {me._attrs["pos"]}; required {want}', fn.loc)
+        for pos, want in ((0, False), (len(TEXT) - 1, False), (len(TEXT), True)):
+            got = bool(run(mk(c, pos), 'atend'))
+            rep.add({'impl': short, 'atend_at': pos, 'got': got, 'want': want})
+            if got != want:
+                fn = a.ct.lookup(c, 'atend')
+                rep.fail(fn.qualname, f'atend:{short}:{pos}', f'{short}.atend() at position {pos} of {len(TEXT)} is {got}', fn.loc)
+        for pos, want_c, want_p in ((0, 'a', 1), (len(TEXT) - 1, 'd', len(TEXT)), (len(TEXT), None, len(TEXT))):
+            me = mk(c, pos)
+            got = run(me, 'next')
+            ok = got == want_c and me._attrs['pos'] == want_p
+            rep.add({'impl': short, 'next_at': pos, 'returns': got, 'position_after': me._attrs['pos'], 'ok': ok})
+            if not ok:
+                fn = a.ct.lookup(c, 'next')
+                rep.fail(fn.qualname, f'next:{short}:{pos}', f'{short}.next() at {pos} returns {got!r} and leaves the position at {me._attrs["pos"]}; required {want_c!r} and {want_p}', fn.loc)
+    return rep
+
+
+RULES = [r1_placement, r2_next_token_fixpoint, r2_matchers, r2c_input_configuration, r3_layering, r2d_cursor_primitives]
